@@ -35,8 +35,19 @@ def theorem_names():
 
 
 def canon(text):
+    """canonical JSON text: keys sorted, numbers as exact decimals (Python prints 0.0 where Go prints 0)"""
+    from decimal import Decimal
+
+    def norm(x):
+        if isinstance(x, dict):
+            return {k: norm(v) for k, v in sorted(x.items())}
+        if isinstance(x, list):
+            return [norm(v) for v in x]
+        if isinstance(x, Decimal):
+            return "#" + format(x.normalize(), "f")
+        return x
     try:
-        return json.dumps(json.loads(text), sort_keys=True, ensure_ascii=False)
+        return json.dumps(norm(json.loads(text, parse_float=Decimal, parse_int=Decimal)), sort_keys=True, ensure_ascii=False)
     except Exception:
         return "BAD " + text
 
